@@ -42,6 +42,7 @@ func init() {
 				{Name: "jt808-parsing", Bin: "race", Batches: n, Parallel: 4, TimeoutS: 900},
 				{Name: "att-default", Bin: "race", Batches: n, Parallel: 4, TimeoutS: 900},
 				{Name: "att-recording", Bin: "race", Batches: n, Parallel: 4, TimeoutS: 900},
+				{Name: "parser-games", Bin: "plain", Batches: 1, TimeoutS: 900},
 			}
 		},
 		Assumptions: []string{
@@ -55,6 +56,7 @@ func init() {
 		"jt808-parsing": func(c *core.Collector, x *Ctx) { c10JT808(c, x, true) },
 		"att-default":   func(c *core.Collector, x *Ctx) { c10Att(c, x, true) },
 		"att-recording": func(c *core.Collector, x *Ctx) { c10Att(c, x, false) },
+		"parser-games":  c10Games,
 	})
 }
 
@@ -931,4 +933,97 @@ func c10Att(c *core.Collector, x *Ctx, defaultHandler bool) {
 		c.Violate("probe|a well-formed upload was not served correctly after hostile connections", "final: "+detail, nil)
 	}
 	c.Floor("canary_uploads", 20)
+}
+
+// ---- JT808 stream parser under hostile sub-package sequences and (virtual) time ---------------------------------
+//
+// The socket parts cannot wait 5 s / 60 s on thousands of hostile connections, so the timer-driven paths of the parser
+// (re-request after 5 s idle, expiry after 60 s) would only ever see well-formed state. This part feeds hostile
+// fragment sequences — empty bodies, totals 0 / 1 / 65535, contradictory totals, numbers beyond the total, duplicates,
+// repeated packet 1, several IDs — through service.VerifParser (the code path of connection.reader) and ages the
+// parser's clock between reads. Oracle: no panic, ever (a panic in the reader goroutine ends the whole server).
+func c10Games(c *core.Collector, x *Ctx) {
+	c.Rule = "hostile sub-package sequences through the real stream parser with virtual time between reads: fragments with empty / 1-byte / 1023-byte bodies, totals and numbers from {0,1,2,3,5,255,256,65535}, contradictory totals, duplicates, repeated packet 1, 1-3 message IDs, " +
+		"unfragmented messages in between, ages from {0.1,4,5.1,5.6,11,30,59,61,120 s}; oracle: the parser never panics. evaluation = one sequence; distinct by hash of the sequence"
+	n := c.N(20000, 400000)
+	vals := []uint16{0, 1, 2, 3, 5, 255, 256, 65535}
+	ages := []int64{100, 4000, 5100, 5600, 11000, 30000, 59000, 61000, 120000}
+	aged := c.Counter("sequences_with_timer_paths_reached")
+	core.ParallelFor(n, ncpu(), func(i int) {
+		r := core.NewRand(c.Seed, "c10games", uint64(x.Batch)<<32|uint64(i))
+		ids := []uint16{0x0801, 0x0704, 0x0200}[:1+r.Intn(3)]
+		var ops []hookOp
+		var frames []string
+		v19 := r.Bool()
+		k := 3 + r.Intn(12)
+		hasAge := false
+		for q := 0; q < k; q++ {
+			switch r.Intn(6) {
+			case 0:
+				ops = append(ops, hookOp{AgeMs: ages[r.Intn(len(ages))]})
+				hasAge = true
+				continue
+			case 1:
+				f := hookFrameV(v19, 0x0002, r.U16(), false, 0, 0, nil)
+				frames = append(frames, core.Hex(f))
+				ops = append(ops, hookOp{Feed: core.Hex(f)})
+				continue
+			}
+			sum, no := vals[r.Intn(len(vals))], vals[r.Intn(len(vals))]
+			if r.Chance(1, 2) { // plausible pair
+				sum = uint16(2 + r.Intn(4))
+				no = uint16(1 + r.Intn(int(sum)))
+			}
+			var body []byte
+			switch r.Intn(5) {
+			case 0: // empty
+			case 1:
+				body = []byte{r.Byte()}
+			case 2:
+				body = r.Bytes(1023)
+			default:
+				body = r.Bytes(1 + r.Intn(12))
+			}
+			f := hookFrameV(v19, ids[r.Intn(len(ids))], r.U16(), true, sum, no, body)
+			frames = append(frames, core.Hex(f))
+			for _, s := range hookSplit(f) {
+				ops = append(ops, hookOp{Feed: core.Hex(s)})
+			}
+			if r.Chance(1, 3) { // the same fragment again (duplicate), possibly several times
+				for d := 1 + r.Intn(4); d > 0; d-- {
+					frames = append(frames, core.Hex(f))
+					for _, s := range hookSplit(f) {
+						ops = append(ops, hookOp{Feed: core.Hex(s)})
+					}
+				}
+			}
+		}
+		// always end with an aged read, so that whatever state the sequence left is seen by the timer paths
+		ops = append(ops, hookOp{AgeMs: []int64{5600, 61000}[r.Intn(2)]})
+		f := hookFrameV(v19, 0x0002, 9, false, 0, 0, nil)
+		frames = append(frames, core.Hex(f))
+		ops = append(ops, hookOp{Feed: core.Hex(f)})
+		sc := &hookScenario{Kind: "c10games", Gen: "sub-package games with virtual time", Frames: frames, Ops: ops}
+		c.Eval()
+		c.NonTrivial(core.HashString(fmt.Sprint(ops)))
+		if guard(c, func() any { return sc }, func() {
+			vp := service.NewVerifParser()
+			for _, op := range sc.Ops {
+				if op.AgeMs != 0 {
+					vp.Age(time.Duration(op.AgeMs) * time.Millisecond)
+					continue
+				}
+				vp.Feed(core.UnHex(op.Feed)) // a returned error only closes this connection
+			}
+		}) {
+			return
+		}
+		if hasAge {
+			aged.Add(1)
+		}
+		if i%5000 == 0 && c.WantSample() {
+			c.Sample(map[string]any{"gen": "parser games", "ops": len(ops), "first_ops": ops[:min(4, len(ops))]})
+		}
+	})
+	c.Floor("sequences_with_timer_paths_reached", 1000)
 }
